@@ -378,7 +378,7 @@ pub fn k7(dir: &str, thorough: bool, seed: u64) {
                 if xg.num_points() > if thorough { 40_000 } else { 9_000 } {
                     continue;
                 }
-                out.case(&xg.graph_line(), &format!("graph ok points={}", xg.num_points()), true);
+                out.case(&xg.graph_line(), &format!("graph ok points={} premises=ok", xg.num_points()), true);
                 out.count(&format!("net_{name}"));
                 // library hypotheses: steady states and attractors as the model defines them
                 let steady = biodivine_hctl_model_checker::evaluation::algorithm::compute_steady_states(&xg.graph);
